@@ -30,6 +30,7 @@ type modCase struct {
 	Extra string     `json:"extra"` // extra statements appended to the main file (probe programs)
 	Sel   map[string][]string `json:"sel"` // selective import lists for main: module -> exported names
 	Names map[string]string   `json:"names"` // module symbol -> the name written in 导入“…” (segments separated by -); default: modName
+	Bad   string              `json:"bad"`   // this module's body FAULTS (a top-level statement divides by zero) while the module is being imported
 	Trace bool                `json:"trace"` // record the loader's events (script-frame pushes / pops, body markers, outcome) for Trace_ZnModule
 	Repeat int                `json:"repeat"` // C11: execute the main file this many times (fresh interpreter each time) and report the distinct outcomes
 }
@@ -67,6 +68,7 @@ func handleModule(raw json.RawMessage) interface{} {
 		return map[string]interface{}{"obs": "harness-error", "detail": err.Error()}
 	}
 	defer os.RemoveAll(dir)
+	badLine := 0
 	imports := map[string][]string{}
 	for _, e := range c.Edges {
 		imports[e[0]] = append(imports[e[0]], e[1])
@@ -101,7 +103,12 @@ func handleModule(raw json.RawMessage) interface{} {
 		// the module's own names are also in reach of a handler block, of a body that builds the module's type,
 		// and of a method of that type
 		fmt.Fprintf(&sb, "如何%s险？\n    抛出异常：“x”！\n    拦截异常：\n        输出（%s辅助）\n\n如何%s造？\n    令物 = （新建%s类）\n    输出物之名\n\n", x, x, x, x)
-		fmt.Fprintf(&sb, "定义%s类：\n    其名 = “%s”\n\n    如何助？\n        输出（%s辅助）\n\n令%s私有 = 1\n（显示：“body-%s”）\n", x, x, x, x, m)
+		fmt.Fprintf(&sb, "定义%s类：\n    其名 = “%s”\n\n    如何助？\n        输出（%s辅助）\n\n", x, x, x)
+		if c.Bad == m {
+			badLine = strings.Count(sb.String(), "\n") + 1
+			sb.WriteString("令丑 = 1 / 0\n")
+		}
+		fmt.Fprintf(&sb, "令%s私有 = 1\n（显示：“body-%s”）\n", x, m)
 		if c.More {
 			// a method that uses the names THIS module imported (methods of the modules it imports, a library function): it
 			// must work the same when it is called from the module's importer after the module's body has finished
@@ -221,6 +228,23 @@ func handleModule(raw json.RawMessage) interface{} {
 		}
 		mevs = append(mevs, map[string]interface{}{"e": "result", "r": res})
 		return map[string]interface{}{"obs": o.Obs, "display": o.Display, "code": o.Code, "msg": lastLine(o.Msg), "val": o.Val, "main": sb.String(), "mevs": mevs}
+	}
+	if c.Bad != "" {
+		chain, cmods, _ := parseChain(o.Text)
+		var csyms []string
+		for _, n := range cmods {
+			sym := "main"
+			for k := range modName {
+				if n != "" && c.nameOf(k) == n {
+					sym = k
+				}
+			}
+			if n == "?" {
+				sym = "?"
+			}
+			csyms = append(csyms, sym)
+		}
+		return map[string]interface{}{"obs": o.Obs, "display": o.Display, "code": o.Code, "msg": lastLine(o.Msg), "main": sb.String(), "chain": chain, "chainm": csyms, "badline": badLine, "text": o.Text}
 	}
 	if c.Repeat > 1 {
 		seen := map[string]int{}
